@@ -69,3 +69,14 @@ REGISTRY.update({
         "note": _NOTE + "Tolerance 5e-6 * sum|coordinates| because directions are float32 in the implementation.",
     },
 })
+
+REGISTRY.update({
+    "C13": {
+        "level": "Generated covariances aimed at the algorithm's branch thresholds (each of the four quadrature regimes >= 10 % of cases, >= 5 % within 1e-3 "
+                 "of a threshold, |r| up to 1-1e-9) and evaluation points out to 10^4 sd are judged against an adaptive-quadrature evaluation of "
+                 "Plackett's integral (two forms, cross-checked by 30-digit mpmath on a subsample): accuracy 1e-7, range, monotonicity on generated "
+                 "grids, rectangle masses, tail limits, product form, norm_cdf and the uniform box CDF. Exploration: real-valued parameters, no finite slice.",
+        "technique": "property-based testing (Hypothesis) against an independent quadrature reference (differential) + CDF shape laws",
+        "note": _NOTE + "numpy/scipy C code gives no coverage gradient, so no coverage-guided stage; generators target the documented thresholds instead.",
+    },
+})
